@@ -182,7 +182,10 @@ impl StateSpace for SO3StateSpace {
         let (center_rotation, max_angle) = &self.bounds;
         let deviation = self.distance(center_rotation, state);
 
-        deviation <= *max_angle
+        // `distance` is `2 * acos(dot)`, which carries an absolute error of up to ~4e-8 near
+        // dot = 1; without a tolerance a state that `enforce_bounds` has just projected onto
+        // the cone (or the centre of a zero-radius cone) is rejected.
+        deviation <= *max_angle + 1e-7
     }
 
     /// Generates a uniformly random rotation within the defined bounds.
